@@ -81,7 +81,13 @@ class RecRhythm(Rhythm):
         self.inner.expect_bell(expected_bell, row_number, place, expected_stroke)
 
     def change_setting(self, key, value, real_time):
-        self.sim.rec(["r_setting", key, value if isinstance(value, (str, bool, int)) or value is None else "<float>"])
+        shown = value if isinstance(value, (str, bool, int)) or value is None else "<float>"
+        if key == "peal_speed":      # canonical form: what `int(value)` makes of it, when it can
+            try:
+                shown = int(value)
+            except (ValueError, TypeError):
+                pass
+        self.sim.rec(["r_setting", key, shown])
         self.inner.change_setting(key, value, real_time)
 
     def on_bell_ring(self, bell, stroke, real_time):
@@ -344,7 +350,9 @@ def model_request(scenario, sim):
     for t, m in sim.delivered:
         mm = dict(m)
         if mm["m"] == "row_gen":
-            mm = {"m": "row_gen", "model_gen": m.get("model_gen")}
+            mm = {"m": "row_gen", "json": m.get("json")}
+            if m.get("model_gen") is not None:
+                mm["model_gen"] = m["model_gen"]
         events.append([t, mm])
     return {"k": "world", "bot": bot, "rhythm": scenario["rhythm"],
             "start": f2b(float(scenario.get("start", 1000.0))), "end": f2b(float(scenario["end"])),
